@@ -60,6 +60,10 @@ def shards(tier):
                 for i in range(k):
                     out.append({"buf": buf, "kind": "vhdx-bitmap", "depth": depth, "where": where, "wb": wb,
                                 "slice": [i, k]})
+    # block windows on both sides of a chunk boundary (4096 blocks of 1 MiB with 512-byte sectors): the BAT interleaves one
+    # sector-bitmap entry per chunk with the payload entries
+    for i in range(4):
+        out.append({"buf": 8192, "kind": "vhdx-blocks", "depth": 2, "W": 3, "slice": [i, 4], "at": 4094, "total": 4098})
     out.append({"buf": 8192, "kind": "vhdx-locate"})
     for buf in bufs[:2] if q else bufs:
         for mech in ("vmdk-hosted", "vmdk-stream", "vmdk-sesparse", "vmdk-multi", "hdd", "hdd-top", "hdd-topdefault", "hdd-plainbase", "hdd-split",
@@ -210,7 +214,10 @@ def _shard_vhdx_blocks(shard, ctx):
     with scratch_dir() as d:
         cache = {}
         for layers in sliced(itertools.product(per_layer, repeat=depth), i, k):
-            _case_vhdx_blocks({"kind": "vhdx-blocks", "layers": [list(l) for l in layers]}, ctx, d, cache)
+            case = {"kind": "vhdx-blocks", "layers": [list(l) for l in layers]}
+            if shard.get("at"):
+                case.update(at=shard["at"], total=shard["total"])
+            _case_vhdx_blocks(case, ctx, d, cache)
 
 
 def _case_vhdx_blocks(case, ctx, d, cache):
@@ -229,13 +236,14 @@ def _case_vhdx_blocks(case, ctx, d, cache):
         # descending physical order in odd layers
         if k % 2:
             slots = [(W - 1 - w) if s == DATA else None for w, s in enumerate(states)]
-        _write_vhdx_layer(d, names, k, states, slots, None, cache)
-        disk = B.model(states, MB, 512, None, k + 1, disk)
+        _write_vhdx_layer(d, names, k, states, slots, None, cache, total=case.get("total"), at=case.get("at", 0))
+        disk = B.model(states, MB, 512, None, k + 1, disk, total_blocks=case.get("total"), window_at=case.get("at", 0))
     ctx.model(layers)
     ctx.executions += 1
     ctx.sample(case)
     size = W * MB
     spb = MB // 512
+    at = case.get("at", 0)
     if "sector_requests" in case or "requests" in case:
         sreqs = [tuple(r) for r in case.get("sector_requests", [])]
         reqs = [tuple(r) for r in case.get("requests", [])]
@@ -243,8 +251,11 @@ def _case_vhdx_blocks(case, ctx, d, cache):
         spts = sorted({0, 1, spb - 1, spb, spb + 1, 2 * spb - 1, 2 * spb, spb - buf // 512, spb + buf // 512} & set(range(0, W * spb + 1)))
         sreqs = [(a, c) for a, c in request_pairs(spts) if 0 < c <= 2 * (buf // 512) + 2]
         sreqs += [(0, spb), (spb // 2, spb), (0, 2 * spb)]
+        if at:
+            sreqs += [(0, W * spb), (spb // 2, 2 * spb), (spb, 2 * spb), (2 * spb - 1, 2)]
+            sreqs = [(at * spb + a, c) for a, c in sreqs]
         reqs = [(s * 512 + da, c * 512 + dn) for (s, c) in sreqs[:12] for da, dn in ((0, 0), (1, 1), (511, 2))]
-        reqs.append((0, size))
+        reqs.append((at * MB, size))
     with ctx.watch(case):
         try:
             v = VHDX(Path(d) / names[-1])
